@@ -729,4 +729,48 @@ example : (List.range 13).map (⟨5, [0xA5, 0xE0]⟩ : BitString).bit =
     [true, false, true, false, false, true, false, true, true, true, true, false, false] := by decide
 -- an index whose low byte differs from the index (the `as u8` cast in `bit`): still beyond the end
 example : (⟨5, [0xA5, 0xE0]⟩ : BitString).bit 256 = false := by decide
+/-! ### the octet views -/
+
+/-- **the octet views return the data octets unchanged**: `octets()`, `octet_slice()`,
+    `octet_bytes()` all yield the data octets and `octet_len()` their number -/
+theorem views_eq (s : BitString) :
+    s.octets = s.bits ∧ s.octetSlice = some s.bits ∧ s.octetBytes = s.bits ∧ s.octetLen = s.bits.length ∧
+      s.unusedBits = s.unused := by
+  refine ⟨?_, rfl, rfl, rfl, rfl⟩
+  simp [BitString.octets]
+
+/-- for an accepted value: the views return exactly the content octets after the first -/
+theorem accepted_views (m : Mode) (u : UInt8) (data rest : Bytes) (s : BitString) (k : Content) (g : G0)
+    (h : runG0 (BitString.fromContent (.prim m)) (St (u :: data ++ rest) (some (data.length + 1))) = .ok ((s, k), g)) :
+    s.octets = data ∧ s.octetSlice = some data ∧ s.octetBytes = data ∧ s.octetLen = data.length ∧ s.unusedBits = u := by
+  have h1 := fromContent_run m (u :: data) rest
+  simp only [List.length_cons, List.cons_append] at h1 h
+  rw [h] at h1
+  simp only [decoded] at h1
+  split at h1
+  · simp only [Except.ok.injEq, Prod.mk.injEq] at h1
+    obtain ⟨⟨hs, _⟩, _⟩ := h1
+    subst hs
+    have := views_eq ⟨u, data⟩
+    simpa using this
+  · cases h1
+
+/-- `BitString::new` builds exactly the values that satisfy the invariant of accepted values -/
+theorem new_ok_iff (u : UInt8) (bits : Bytes) :
+    (∃ s, BitString.new u bits = .ok s) ↔ (u.toNat ≤ 7 ∧ (bits = [] → u = 0)) := by
+  unfold BitString.new
+  by_cases h1 : u > 7
+  · have : ¬ u.toNat ≤ 7 := by
+      have := UInt8.lt_iff_toNat_lt.mp h1; simp at this; omega
+    simp [h1, this]
+  · have h7 : u.toNat ≤ 7 := by
+      have : ¬ (7 : UInt8).toNat < u.toNat := fun h => h1 (UInt8.lt_iff_toNat_lt.mpr h)
+      simp at this; omega
+    cases bits with
+    | nil =>
+      by_cases h0 : u = 0
+      · simp [h0]
+      · simp [h1, h0, h7]
+    | cons b t => simp [h1, h7]
+
 end Bcder.Props.C19
